@@ -117,6 +117,29 @@ def vary_span_si(rng, ej, *, allow_gain_mode=True, allow_eol=True, allow_policy=
     return desc
 
 
+def synthetic_roadm_variety(rng, name='vf_impair_full'):
+    """ROADM library entry with detailed impairment profiles in which every field of the data model takes a value
+    (PMD, CD, PDL, in-band crosstalk, maximum loss, add/drop OSNR), per frequency range."""
+    def items(kind):
+        edges = [184e12, 190.5e12, 193.0e12, 195.0e12, 200e12]
+        out = []
+        for lo, hi in zip(edges[:-1], edges[1:]):
+            it = {'frequency-range': {'lower-frequency': lo, 'upper-frequency': hi},
+                  'roadm-pmd': pick(rng, [0, 1e-12, 3e-12]), 'roadm-cd': pick(rng, [0, 0, 5e-12]),
+                  'roadm-pdl': pick(rng, [0, 0.5, 1.0]), 'roadm-inband-crosstalk': pick(rng, [0, 30, 35, 40]),
+                  'roadm-maxloss': pick(rng, [0, 3.0, 6.5, 11.5])}
+            if kind != 'express':
+                it['roadm-osnr'] = pick(rng, [41, 38, 35])
+            out.append(it)
+        return out
+    return {'type_variety': name, 'target_pch_out_db': pick(rng, [-20, -18, -22]), 'add_drop_osnr': 38, 'pmd': 0,
+            'pdl': 0, 'restrictions': {'preamp_variety_list': [], 'booster_variety_list': []},
+            'roadm-path-impairments': [
+                {'roadm-path-impairments-id': 0, 'roadm-express-path': items('express')},
+                {'roadm-path-impairments-id': 1, 'roadm-add-path': items('add')},
+                {'roadm-path-impairments-id': 2, 'roadm-drop-path': items('drop')}]}
+
+
 # ---------------------------------------------------------------------------------------------------------------
 # topologies
 
